@@ -42,12 +42,14 @@ func checkPubKey(pk *bitcoin.SchnorrPublicKey, q ref.Pt) string {
 	if m := lib.CheckPoint(pk.Point(), even); m != "" {
 		return "Point() is not the even-y point: " + m
 	}
-	ip, ib := bitcoin.VerifSchnorrPubInternals(pk)
-	if m := lib.CheckPointLight(ip, even); m != "" {
-		return "internal point is not the even-y point: " + m
-	}
-	if !bytes.Equal(ib, ref.B32(q.X)) {
-		return "internal xBytes differ from x(point)"
+	if h := bitcoin.VerifSchnorrPubInternals; h != nil {
+		ip, ib := h(pk)
+		if m := lib.CheckPointLight(ip, even); m != "" {
+			return "internal point is not the even-y point: " + m
+		}
+		if !bytes.Equal(ib, ref.B32(q.X)) {
+			return "internal xBytes differ from x(point)"
+		}
 	}
 	return ""
 }
@@ -138,8 +140,12 @@ func runDerive(d *big.Int) string {
 		if m := checkPubKey(sk.PublicKey(), q); m != "" {
 			return fmt.Sprintf("route %d: %s", route, m)
 		}
-		dp, dn, _ := bitcoin.VerifSchnorrPrivInternals(sk)
 		wantD := new(big.Int).Set(d)
+		if bitcoin.VerifSchnorrPrivInternals == nil {
+			// without the layout hook the signing scalar is still pinned by the byte-exact signatures of runSign
+			continue
+		}
+		dp, dn, _ := bitcoin.VerifSchnorrPrivInternals(sk)
 		if q.Y.Bit(0) == 1 {
 			wantD.Sub(ref.N, d)
 		}
